@@ -45,12 +45,23 @@ Proof. exact C04.Proofs.binds_decorated. Qed.
 Print Assumptions binds_decorated.
 
 (* a plain C declaration whose Rust name is its C name: right on every target, for every
-   convention, whatever the (sound) triple classification says *)
+   convention, whatever the triple classification says *)
 Theorem plain_unrenamed_correct : forall md tp c name ab,
-  (tp = true -> has_prefix md = true) ->
   bound_symbol md tp c name (c_symbol md c (Plain name) ab) None ab = c_symbol md c (Plain name) ab.
 Proof. exact C04.Proofs.plain_unrenamed_correct. Qed.
 Print Assumptions plain_unrenamed_correct.
+
+(* ... and on a prefixed target it gets no redundant attribute: the target's own mangling of the
+   name is recognised for every convention bindgen knows *)
+Theorem prefixed_plain_needs_no_attribute : forall md c name ab,
+  has_prefix md = true -> c <> CC_Other ->
+  (md = MachO -> c <> CC_Stdcall /\ c <> CC_Fastcall) ->
+  link_attr true c name (llvm_mangle md c name ab) None = None.
+Proof.
+  intros md c name ab Hp Hc Hm. unfold link_attr.
+  rewrite (C04.Proofs.mangled_recognised md c name ab Hp Hc Hm). reflexivity.
+Qed.
+Print Assumptions prefixed_plain_needs_no_attribute.
 
 (* conventions bindgen does not know how to decorate always get the attribute *)
 Theorem other_conv_always_links : forall tp can m,
